@@ -305,7 +305,7 @@ def rpe_cli(run, case, rng, work):
         fmt = fp["fmt"]
     else:
         fp = C01.make_file_pair(rng, fmt, work, pos_cls="stationary_mix" if still else None)
-    argv_o, o = C01.draw_common_options(rng, fp)
+    argv_o, o = C01.draw_common_options(rng, fp, force=case.get("force_options", ()))
     du = "fmrd"[rng.integers(4)] if rng.random() < .6 else "f"
     all_pairs = bool(rng.random() < .3)
     if "force_all_pairs" in case:
